@@ -844,7 +844,7 @@ def validate(traces, timeout=2400):
         if isinstance(j, dict) and "verdict" in j:
             verdicts[j["verdict"]] = j["fails"]
 
-    r = tlc.run_tlc("TraceScale", CFG, workers=1, timeout=timeout, on_json=on_json, files={"traces.json": json.dumps(slim)}, heap="8g", stack="512m")
+    r = tlc.run_tlc("TraceScale", CFG, workers=1, timeout=timeout, on_json=on_json, files={"traces.json": json.dumps(tlc.clamp_ints(slim))}, heap="8g", stack="512m")
     if len(verdicts) != len(traces):
         raise tlc.MachineryError(f"TraceScale: {len(verdicts)} verdicts for {len(traces)} traces\n" + "\n".join(r.tail[-25:]))
     return verdicts, r
